@@ -1,7 +1,7 @@
 (** Common imports and small list helpers shared by the whole development.
     Stdlib only.  [List] is imported last so that unqualified [length], [concat], ...
     are the list versions; string functions are written qualified. *)
-From Coq Require Export ZArith NArith QArith Qround Ascii String Bool Arith Lia List.
+From Coq Require Export ZArith NArith QArith Qround Qabs Ascii String Bool Arith Lia List.
 Export ListNotations.
 #[global] Open Scope nat_scope.
 
